@@ -29,7 +29,7 @@ from harness.impl import pyast
 
 MODULE = "CddVerif.Properties.C12"
 THEOREMS = [
-    "C12.rewrite_frame", "C12.conform_frame", "C12.sync_frame",
+    "C12.rewrite_frame", "C12.conform_frame", "C12.sync_frame", "C12.sync_frame_shared", "C12.syncAt_id",
     "C12.C12_partial_class", "C12.C12_partial_created", "C12.C12_partial_missing", "C12.truth_unchanged",
     "C12.conform_idempotent", "C12.sync_idempotent",
     "C12.function_target_never_rewritten", "C12.toy_laws", "C12.witness_run",
@@ -437,11 +437,102 @@ def build_case(rng, k):
         names["function"] = " " + names["function"].replace(".", " . ")  # targets go through strip_split (the truth's name does not)
     ifaces, states, used = {}, {}, []
     for kind in KINDS:
-        ifaces[kind] = gen_iface(rng, exclude=used if rng.random() < 0.8 else ())
+        ifaces[kind] = gen_iface(rng, exclude=used if rng.random() < 0.8 else (), falsy=rng.random() < 0.5)
         used += list(ifaces[kind]["params"])
         states[kind] = "present" if kind == truth else rng.choice(["present", "present", "present", "present", "empty", "missing", "absent"])
     files = {kind: build_file(rng, kind, names[kind], ifaces[kind], states[kind]) for kind in KINDS}
     return {"id": k, "truth": truth, "names": names, "states": states, "files": files, "runs": rng.choice([1, 2, 2, 3])}
+
+
+PARTITIONS = [
+    [["class", "function"], ["argparse_function"]],
+    [["class", "argparse_function"], ["function"]],
+    [["function", "argparse_function"], ["class"]],
+    [["class", "function", "argparse_function"]],
+]
+RENDER = {"class": render_class, "function": render_function, "argparse_function": render_argparse}
+
+
+def build_shared_case(rng, k):
+    """two or three kinds name the SAME file: truth's file shared with another kind, two non-truth kinds sharing a file, all in
+    one; each file pre-existing with / without the targets, empty, or missing.  (Function targets are top-level here; method
+    targets are covered by the distinct-file stream.)"""
+    part = rng.choice(PARTITIONS)
+    truth = rng.choice(KINDS)
+    names = {"class": rng.choice(CLASS_NAMES), "function": rng.choice(["run_it", "main_fn", "do_work"]), "argparse_function": rng.choice(ARGPARSE_NAMES)}
+    layout, files, states, used = {}, {}, {}, []
+    for gi, group in enumerate(part):
+        fn = "shared.py" if len(group) > 1 else "other_%d.py" % gi
+        fstate = "has" if truth in group else rng.choice(["has", "has", "has", "empty", "missing"])
+        blocks = []
+        for kind in group:
+            layout[kind] = fn
+            iface = gen_iface(rng, exclude=used if rng.random() < 0.8 else (), falsy=rng.random() < 0.5)
+            used += list(iface["params"])
+            present = fstate == "has" and (kind == truth or rng.random() < 0.6)
+            states[kind] = "present" if present else {"has": "absent", "empty": "empty", "missing": "missing"}[fstate]
+            if present:
+                blocks.append(RENDER[kind](names[kind], iface, rng))
+        if fstate == "missing":
+            text = None
+        elif fstate == "empty":
+            text = rng.choice(["", "\n"])
+        else:
+            rng.shuffle(blocks)
+            pieces = ['"""module doc"""\n'] if rng.random() < 0.4 else []
+            for b in blocks or [None]:
+                pieces += [rng.choice(UNRELATED_TOP) for _ in range(rng.randint(0, 2))]
+                if b:
+                    pieces.append(b)
+            pieces += [rng.choice(UNRELATED_TOP) for _ in range(rng.randint(0, 2))]
+            text = "\n".join(pieces or ["LIMIT = 10\n"])
+        for kind in group:
+            files[kind] = text
+    return {"id": "shared-%s" % k, "truth": truth, "names": names, "states": states, "files": files, "layout": layout, "runs": rng.choice([1, 2, 2, 3])}
+
+
+def layout_and_default_cases():
+    """fixed corner cases, run on every seed: shared files in every partition, and falsy defaults that must survive a WRITE"""
+    rng = __import__("random").Random(12)
+    P = lambda **kw: OrderedDict((n, {"typ": t_, "doc": "the %s" % n, "default": d}) for n, (t_, d) in kw.items())  # noqa: E731
+    i_ab = {"doc": "The K", "params": P(a=("int", 5), b=("str", "foo"))}
+    i_q = {"doc": "The q", "params": P(q=("float", 1.0))}
+    i_z = {"doc": "desc", "params": P(z=("int", 3))}
+    i_f = {"doc": "Falsy defaults", "params": P(count=("int", 0), rate=("float", 0.0), flag=("bool", False), label=("str", ""), maybe=("Optional[int]", 0), on=("bool", True))}
+    cls_ab, cls_f = render_class("K", i_ab, rng), render_class("K", i_f, rng)
+    fn_q, fn_f = render_function("run_it", i_q, rng), render_function("run_it", i_f, rng)
+    ap_z, ap_f = render_argparse("set_cli_args", i_z, rng), render_argparse("set_cli_args", i_f, rng)
+    names = {"class": "K", "function": "run_it", "argparse_function": "set_cli_args"}
+    pre = "import os\n\nLIMIT = 10\n\n"
+
+    def case(id_, truth, layout, texts, states, runs=2):
+        return {"id": id_, "truth": truth, "names": names, "states": states, "layout": layout, "runs": runs,
+                "files": {k: texts[layout[k]] for k in KINDS}}
+
+    L = lambda c, f, a: {"class": c, "function": f, "argparse_function": a}  # noqa: E731
+    return [
+        # the argparse target is requested in the TRUTH's (class) file, where it does not exist yet
+        case("layout-argparse-in-class-truth-file", "class", L("shared.py", "fn.py", "shared.py"), {"shared.py": pre + cls_ab, "fn.py": fn_q},
+             {"class": "present", "function": "present", "argparse_function": "absent"}),
+        # an old class sits in the TRUTH's (function) file
+        case("layout-stale-class-in-function-truth-file", "function", L("shared.py", "shared.py", "ap.py"), {"shared.py": pre + cls_ab + "\n" + fn_q, "ap.py": ap_z},
+             {"class": "present", "function": "present", "argparse_function": "present"}),
+        # all three in one file, argparse is the truth, the class is stale, the function is missing from the file
+        case("layout-all-in-one", "argparse_function", L("shared.py", "shared.py", "shared.py"), {"shared.py": pre + cls_ab + "\n" + ap_z},
+             {"class": "present", "function": "absent", "argparse_function": "present"}, runs=3),
+        # two non-truth kinds share a file that does not exist / is empty
+        case("layout-two-kinds-missing-file", "function", L("shared.py", "fn.py", "shared.py"), {"shared.py": None, "fn.py": fn_q},
+             {"class": "missing", "function": "present", "argparse_function": "missing"}),
+        case("layout-two-kinds-empty-file", "argparse_function", L("shared.py", "shared.py", "ap.py"), {"shared.py": "", "ap.py": ap_z},
+             {"class": "empty", "function": "empty", "argparse_function": "present"}),
+        # falsy defaults of every scalar type must survive into a function target that gets WRITTEN (empty file / file without it)
+        case("falsy-class-truth", "class", L("cls.py", "meth.py", "argp.py"), {"cls.py": cls_f, "meth.py": "", "argp.py": ""},
+             {"class": "present", "function": "empty", "argparse_function": "empty"}),
+        case("falsy-argparse-truth", "argparse_function", L("cls.py", "meth.py", "argp.py"), {"cls.py": "", "meth.py": pre, "argp.py": ap_f},
+             {"class": "empty", "function": "absent", "argparse_function": "present"}),
+        case("falsy-function-truth", "function", L("cls.py", "meth.py", "argp.py"), {"cls.py": pre, "meth.py": fn_f, "argp.py": ""},
+             {"class": "absent", "function": "present", "argparse_function": "empty"}),
+    ]
 
 
 def emitter_class_text(name, iface):
@@ -883,6 +974,57 @@ def classify_outcome(before, after, path):
     return "rewritten"
 
 
+def ndump(node):
+    node = copy.deepcopy(node)
+    for n in ast.walk(node):
+        b = getattr(n, "body", None)
+        if isinstance(b, list) and b and isinstance(b[0], ast.Expr) and isinstance(b[0].value, ast.Constant) and isinstance(b[0].value.value, str):
+            b[0].value.value = normdoc(b[0].value.value)
+    return ast.dump(node)
+
+
+def classify_target(before, after, path):
+    """what run 1 did to ONE target of a file that several kinds share (the file-level view cannot tell the kinds apart)"""
+    if before is None:
+        return "not-created" if after is None else "created"
+    if after == before:
+        return "unchanged"
+    if before and not before.endswith("\n") and after.startswith(before) and len(after) > len(before):
+        return "glued-append"
+    try:
+        tb, ta = resolve(ast.parse(before), path), resolve(ast.parse(after), path)
+    except SyntaxError:
+        return "invalid-python"
+    if tb is not None and ta is not None:
+        return "unchanged" if ndump(tb) == ndump(ta) else "rewritten"
+    if tb is None and ta is not None:
+        return "appended"
+    return "not-appended" if tb is None else "removed"
+
+
+def segment(text, path):
+    """the named target as code (normalised dump; None if absent): in a shared file a kind answers for its target's code, the
+    bytes of the file as a whole are answered for once (see the second-run clause)"""
+    try:
+        node = resolve(ast.parse(text), path)
+    except (SyntaxError, TypeError):
+        return None
+    return None if node is None else ndump(node)
+
+
+def strip_targets(mod, paths):
+    mod = copy.deepcopy(mod)
+    for path in paths:
+        node = resolve(mod, path)
+        if node is not None:
+            for parent in ast.walk(mod):
+                b = getattr(parent, "body", None)
+                if isinstance(b, list) and any(x is node for x in b):
+                    b[:] = [x for x in b if x is not node]
+                    break
+    return ndump(mod)
+
+
 def const_collision(text, path):
     """Does a string constant of the module get the target's `_location` under annotate_ancestry's rule *as it is in the pinned
     tree* (`parent_location + [value]`, `parent_location` = location of the named node annotated last, in ast.walk order)?  Own
@@ -905,8 +1047,14 @@ def const_collision(text, path):
     return False
 
 
-def collisions(case, texts):
-    return [k for k in KINDS if const_collision(texts[k], [c.strip() for c in case["names"][k].split(".")])]
+def collisions(case, texts, effective=False):
+    """kinds whose file holds a string constant at the target's `_location`; effective: the target is there, too, so a rewrite runs"""
+    out = []
+    for k in KINDS:
+        path = [c.strip() for c in case["names"][k].split(".")]
+        if const_collision(texts[k], path) and (not effective or resolve_text(texts[k], path)):
+            out.append(k)
+    return out
 
 
 def state_of(text, path):
@@ -950,8 +1098,8 @@ def oracle_phase(chk, case, before, states, snaps):
 
     if first["rc"] != 0:
         # which file was being processed? the first one (in order) that a working run would have touched but is untouched
-        missing_fn = before["function"] is None
-        coll = collisions(case, before)
+        missing_fn = before["function"] is None and sharing(case, "function")[0] == "function"
+        coll = collisions(case, before, effective=True)
         fail({"clause": "crash", "exc": first["exc"], "function_file_missing": missing_fn, "truth_method_after_toplevel_def": truth_quirk(case),
               "const_collision": coll[0] if coll else False,
               "states": "/".join(case["states"][k] for k in KINDS) if not (missing_fn or truth_quirk(case) or coll) else "*"},
@@ -962,8 +1110,12 @@ def oracle_phase(chk, case, before, states, snaps):
         name = case["names"][kind]
         path = [c.strip() for c in name.split(".")]
         after = first["files"][kind]
-        outcome = classify_outcome(before[kind], after, path)
+        mates = sharing(case, kind)
+        outcome = classify_outcome(before[kind], after, path) if len(mates) == 1 else classify_target(before[kind], after, path)
         sig0 = {"target_kind": kind, "initial": case["states"][kind], "outcome": outcome, "dotted": len(path) > 1}
+        if len(mates) > 1:
+            sig0["file_shared_with"] = "+".join(k for k in mates if k != kind)
+            sig0["in_truth_file"] = t in mates
         if outcome == "created":
             sig0["created_under"] = "target-name" if resolve_text(after, path) else "other-name"
         if before[kind] and not before[kind].endswith("\n"):
@@ -997,10 +1149,25 @@ def oracle_phase(chk, case, before, states, snaps):
                 fail(dict(sig0, clause="interface", diff="returns-differ"), "%s target %s return entry %s, truth %s" % (kind, name, v["returns"], truth_view["returns"]))
             elif not comparable:
                 chk.coverage["outside_common_domain"] = chk.coverage.get("outside_common_domain", 0) + 1
-        # (c) frame: everything but the named target is the same code
+        # (b') defaults of a WRITTEN target as typed values, read with the stdlib only (not through cdd's own parsers, and not
+        #      relative to a control conversion: an emitter that drops `= 0` must not vanish in the comparison)
+        if outcome in ("created", "appended", "rewritten", "method-appended-at-top-level") and before[t] is not None:
+            td = stdlib_defaults(t, written_node(before[t], [c.strip() for c in case["names"][t].split(".")]))
+            wd = stdlib_defaults(kind, written_node(after, path))
+            for pn, tv in td.items():
+                wv = wd.get(pn, "missing")
+                if wv != tv:
+                    fail(dict(sig0, clause="defaults", default_from=tv.split(":")[0], default_to=wv.split(":")[0]),
+                         "%s target %s was written with %s = %s, the truth (%s) has %s" % (kind, name, pn, wv, t, tv))
+                    break
+        # (c) frame: everything but the named target(s) of this file is the same code
         if before[kind] is not None and after is not None:
             try:
-                a, b = strip_target(ast.parse(before[kind]), path), strip_target(ast.parse(after), path)
+                if len(mates) == 1:
+                    a, b = strip_target(ast.parse(before[kind]), path), strip_target(ast.parse(after), path)
+                else:
+                    ps = [[c.strip() for c in case["names"][k].split(".")] for k in mates]
+                    a, b = strip_targets(ast.parse(before[kind]), ps), strip_targets(ast.parse(after), ps)
             except SyntaxError:
                 a = b = None
             if a != b:
@@ -1009,13 +1176,31 @@ def oracle_phase(chk, case, before, states, snaps):
         for i in range(1, len(snaps)):
             if snaps[i]["rc"] != 0:
                 break  # reported once per case, below
+            if len(mates) > 1:
+                # a shared file: this kind answers for its own target's text; the rest of the file (layout included) is
+                # answered for by the class kind if there is one (only class targets make sync re-emit a whole file), else by
+                # the first kind of the file
+                prev, cur = snaps[i - 1]["files"][kind], snaps[i]["files"][kind]
+                owner = "class" if "class" in mates else mates[0]
+                ps = [[c.strip() for c in case["names"][k].split(".")] for k in mates]
+                if segment(prev, path) != segment(cur, path):
+                    fail(dict(sig0, clause="second-run", run=i + 1), "target %s in %s differs between run %d and run %d" % (name, fname(case, kind), i, i + 1))
+                    break
+                if kind == owner and prev != cur and all(segment(prev, p_) == segment(cur, p_) for p_ in ps):
+                    raw = any(classify_target(before[k], first["files"][k], [c.strip() for c in case["names"][k].split(".")]) in ("appended", "created")
+                              for k in mates)
+                    same_code = is_python(prev) and is_python(cur) and ndump(ast.parse(prev)) == ndump(ast.parse(cur))
+                    fail(dict(sig0, clause="second-run", run=i + 1, layout_only=same_code, raw_write_in_file=raw),
+                         "%s differs between run %d and run %d (outside the targets%s)" % (fname(case, kind), i, i + 1, ", layout only" if same_code else ""))
+                    break
+                continue
             if snaps[i]["files"][kind] != snaps[i - 1]["files"][kind]:
                 fail(dict(sig0, clause="second-run", run=i + 1), "%s differs between run %d and run %d" % (fname(case, kind), i, i + 1))
                 break
     if first["rc"] == 0 and not invalid and not glued:
         for i in range(1, len(snaps)):
             if snaps[i]["rc"] != 0:
-                coll = collisions(case, before) or collisions(case, snaps[i]["before"])
+                coll = collisions(case, before, effective=True) or collisions(case, snaps[i]["before"], effective=True)
                 fail({"clause": "crash", "exc": snaps[i]["exc"], "run": i + 1, "const_collision": coll[0] if coll else False,
                       "states": "/".join(states[k] for k in KINDS) if not coll else "*"},
                      "run %d exits %s: %s" % (i + 1, snaps[i]["rc"], snaps[i]["stderr"].strip().splitlines()[-1] if snaps[i]["stderr"].strip() else ""))
@@ -1215,7 +1400,7 @@ def run(chk: core.Check) -> int:
     chk.coverage["rewrite_outcomes"] = kinds_r
     # ---- (2) the real CLI on triples of files ---------------------------------------------------------------
     cases = [build_case(rng, k) for k in range(160 if chk.quick else 1600)]
-    cases = witness_cases() + fixed_cases() + cases + [build_history_case(rng, k) for k in range(40 if chk.quick else 400)]
+    cases = witness_cases() + fixed_cases() + layout_and_default_cases() + cases + [build_shared_case(rng, k) for k in range(50 if chk.quick else 500)] + [build_history_case(rng, k) for k in range(40 if chk.quick else 400)]
     n_s, real = check_sync_cases(chk, cases, "structured") if have_driver else (0, [run_real(c) for c in cases])
     chk.oblige("correspondence Sync.sync = `python -m cdd sync` (files after every run) on %d triples, %d CLI runs" % (len(cases), sum(c["runs"] for c in cases)),
                "correspondence", have_driver and n_s == 0, "%d disagreements" % n_s)
